@@ -264,32 +264,7 @@ private:
             return;
         }
 
-        int entries = this->_info._num_colors;
-
-        if( entries == 0 )
-        {
-            entries = 1u << this->_info._bits_per_pixel;
-        }
-
-		this->_palette.resize( entries, rgba8_pixel_t(0,0,0,0) );
-
-        // the colour table follows the info header, whatever its size (40, 12, or 108/124 for V4/V5)
-        this->_io_dev.seek( static_cast< long >( bmp_header_size::_size + this->_info._header_size ));
-
-        for( int i = 0; i < entries; ++i )
-        {
-            get_color( this->_palette[i], blue_t()  ) = this->_io_dev.read_uint8();
-            get_color( this->_palette[i], green_t() ) = this->_io_dev.read_uint8();
-            get_color( this->_palette[i], red_t()   ) = this->_io_dev.read_uint8();
-
-            // entries have 4 bytes in every windows header (V3, V4, V5)
-            // but 3 for os2 header
-            if( this->_info._header_size != bmp_header_size::_os2_info_size )
-            {
-                this->_io_dev.read_uint8();
-            }
-
-        } // for
+        backend_t::read_palette();
     }
 
     template< typename View >
@@ -320,7 +295,7 @@ private:
            )
         {
             unsigned char c = get_color( *src_it, gray_color_t() );
-            *dst_it = this->_palette[c];
+            *dst_it = this->palette_color( c );
         }
     }
 
